@@ -229,6 +229,15 @@ func isProtoPkg(fn *ssa.Function) bool {
 }
 
 func (st *State) invokeIntrinsic(fr *Frame, in ssa.CallInstruction, c *ssa.CallCommon, recv SVal, args []SVal) (SVal, bool) {
+	if iv, ok := recv.(*IfaceV); ok {
+		if h, ok := iv.CVal.(*EntH); ok && h.Kind == "committer" && c.Method.Name() == "Commit" {
+			r, _ := st.ghostObj["commitResult"].(*Term)
+			if r == nil {
+				st.unsupported("Commit on a hook committer outside hook analysis")
+			}
+			return r, true
+		}
+	}
 	if isErrorType(c.Value.Type()) && c.Method.Name() == "Error" {
 		f := st.declareFun("err_msg", []Sort{SInt}, SStr)
 		return App(SStr, f, st.scalar(recv)), true
@@ -357,7 +366,7 @@ func (st *State) sortSlice(x SVal) SVal {
 		inner := st.fresh("sorted", ArrS(SInt, l.Sort))
 		j := st.qv("j")
 		st.assume(Forall([]*Term{j}, Eq(Select(inner, j), Ite(And(Ge(j, sv.Off), Lt(j, Add(sv.Off, sv.Len))), Select(old, Add(sv.Off, Select(perm, Sub(j, sv.Off)))), Select(old, j))), Select(inner, j)))
-		st.heapSet(key, Store(arr, sv.Base, inner))
+		st.heapSetInner(key, arr, sv.Base, inner)
 	}
 	if memOld != nil {
 		// a permutation has the same set of elements
